@@ -142,3 +142,19 @@ Definition run_c06_estimated_nodes (s : sx) : sx :=
       end
   | _ => bad_request
   end.
+
+(* ParameterEstimator.state_counts(node, weighted): [cards cols rows child gparents] -> named count table *)
+Definition run_c06_counts (s : sx) : sx :=
+  match s with
+  | SL [sc; scol; srows; sch; sgp] =>
+      match sx_list sx_nat sc, sx_list sx_nat scol, sx_list sx_wrow srows, sx_nat sch, sx_list sx_nat sgp with
+      | Some cards, Some cols, Some rows, Some child, Some gp =>
+          let card := card_of cards in
+          if negb (fam_in_cols cols (child :: gp)) then sx_err 1
+          else if negb (frame_ok card cols rows) then sx_err 2
+          else sx_ok (named_cpd cards child gp
+                        (map (map Some) (state_counts card cols rows child (sort_vars gp))))
+      | _, _, _, _, _ => bad_request
+      end
+  | _ => bad_request
+  end.
